@@ -16,10 +16,25 @@ X cls=<PyClass> site=<file:function> n=<number of tokens> syms=<cps>,<cps>,...  
                                known escapes (EPV.C03Esc.trigger)
    answer: inK=<finding id>#<row index> | inK=-
 T                              dump of the trigger table: id;cls;site;sym,sym,..;minToks|...
+W k=alpha a=<alphabet cps> n=<int>        `int_to_alphabetic` from `base = len(alphabet)` on (EPV.C03Loops)
+   answer: model=<v:cps | x:Class | fuel> spec=<value of the digit string in bijective base len(a)>
+W k=args t=<tok>,<tok>,...                `get_argument_tokens`; pre-order token tree, <tok> = <items: 0|1|2><1 if symbol is ','>,
+                               identity = position in the list
+   answer: model=<v:id.id… | x:Class | fuel> spec=<v:… | x:IndexError>   (spec: recursive `argsSpec`)
+W k=desc n=<top-level count> t=<node>,<node>,...   `ElementNode.iter_descendants(with_self=False)`; pre-order,
+                               <node> = e<children> | o<children>, identity = position in the list
+   answer: model=<v:id.id… | fuel> spec=<v:…> steps=<measure>   (spec: recursive pre-order `Forest.pre`)
+W k=walk op=<anc|prec|foll|lang> s=<node>,<node>,... root=<id> doc=<0|1> item=<id> self=<0|1>   the parent walks of
+                               EPV/Model/C03Loops2.lean; <node> = <parent id or ->:<1 if EtreeElementNode><1 if xml:lang>,
+                               identity = position in the list; `item` = the node the loop starts from
+   answer: model=<v:… | fuel> spec=<ok|bad|->  wf=<1 if every parent id is smaller than the child's>
+           anc: v:<ids in yield order>, spec = `chainOK`;  prec: v:<top>;<ancestors>;  foll: v:<top>;  lang: v:<id or ->
 -/
 import EPV.Proto
 import EPV.Gen.C03Tables
 import EPV.Spec.EscapeTriggers
+import EPV.Model.C03Loops
+import EPV.Model.C03Loops2
 open EPV.Proto EPV.PState EPV.Lexer EPV.XErr
 
 def decodeStr (s : String) : String :=
@@ -164,9 +179,110 @@ def answerT : String :=
   "|".intercalate (EPV.C03Esc.rows.map fun r =>
     s!"{r.id};{r.cls};{r.site};{",".intercalate r.anySym};{r.minToks}")
 
+/-! ## W: three more `while` loops (EPV.C03Loops) -/
+
+open EPV.C03Loops in
+def showOut {α : Type} (f : α → String) : Out α → String
+  | .val a => "v:" ++ f a
+  | .escape c => "x:" ++ c
+  | .outOfFuel => "fuel"
+
+def showIds (l : List Nat) : String := if l.isEmpty then "_" else ".".intercalate (l.map toString)
+
+open EPV.C03Loops in
+def parseTk : Nat → List String → Nat → Option (Tk × List String × Nat)
+  | 0, _, _ => none
+  | _, [], _ => none
+  | fuel + 1, t :: rest, next =>
+    let comma := t.toList.getD 1 '0' == '1'
+    match t.toList.head? with
+    | some '0' => some (.leaf comma next, rest, next + 1)
+    | some '1' => do
+      let (k0, r1, n1) ← parseTk fuel rest (next + 1)
+      pure (.un comma next k0, r1, n1)
+    | some '2' => do
+      let (k0, r1, n1) ← parseTk fuel rest (next + 1)
+      let (k1, r2, n2) ← parseTk fuel r1 n1
+      pure (.bin comma next k0 k1, r2, n2)
+    | _ => none
+
+open EPV.C03Loops in
+def parseForest : Nat → Nat → List String → Nat → Option (Forest × List String × Nat)
+  | 0, _, _, _ => none
+  | _, 0, toks, next => some (.nil, toks, next)
+  | _, _ + 1, [], _ => none
+  | fuel + 1, n + 1, t :: rest, next => do
+    let el := t.toList.head? == some 'e'
+    let k ← nat? (t.drop 1).toString
+    let (kids, r1, n1) ← parseForest fuel k rest (next + 1)
+    let (sib, r2, n2) ← parseForest fuel n r1 n1
+    pure (.cons next el kids sib, r2, n2)
+
+open EPV.C03Loops in
+def answerWalk (fs : List (String × String)) : String :=
+  let ents : List (Option Nat × Bool × Bool) := (((field fs "s").splitOn ",").filter (· ≠ "")).map fun e =>
+    match e.splitOn ":" with
+    | [p, fl] => (nat? p, fl.toList.getD 0 '0' == '1', fl.toList.getD 1 '0' == '1')
+    | _ => (none, false, false)
+  let arr := ents.toArray
+  let st : Store := ⟨fun n => (arr[n]?).bind (·.1), fun n => ((arr[n]?).map (·.2.1)).getD false,
+                     fun n => ((arr[n]?).map (·.2.2)).getD false⟩
+  let wf := (List.range arr.size).all fun n => match st.parent n with | some p => p < n | none => true
+  let root := (nat? (field fs "root")).getD 0
+  let doc := field fs "doc" == "1"
+  let item := (nat? (field fs "item")).getD 0
+  let orSelf := field fs "self" == "1"
+  let w := if wf then 1 else 0
+  match field fs "op" with
+  | "anc" =>
+    let r := iterAncestors st root doc item orSelf
+    let spec := match r with
+      | .val l =>
+        let chain := (if orSelf then l.dropLast else l).reverse
+        let run := doc || item != root
+        if (if run then chainOK st root doc item chain else chain.isEmpty) && (!orSelf || l.getLast? == some item)
+        then "ok" else "bad"
+      | _ => "-"
+    s!"model={showOut showIds r} spec={spec} wf={w}"
+  | "prec" =>
+    s!"model={showOut (fun (r : Nat × List Nat) => s!"{r.1};{showIds r.2}") (precLoop st root doc (item + 2) ⟨item, [item]⟩)} spec=- wf={w}"
+  | "foll" => s!"model={showOut toString (follLoop st root (item + 2) item)} spec=- wf={w}"
+  | "lang" =>
+    s!"model={showOut (fun (o : Option Nat) => (o.map toString).getD "-") (langLoop st (item + 2) (some item))} spec=- wf={w}"
+  | _ => "bad-op"
+
+open EPV.C03Loops in
+def answerW (fs : List (String × String)) : String :=
+  let toks := ((field fs "t").splitOn ",").filter (· ≠ "")
+  match field fs "k" with
+  | "walk" => answerWalk fs
+  | "alpha" =>
+    let a := (decodeStr (field fs "a")).toList
+    match int? (field fs "n") with
+    | none => "bad-int"
+    | some n =>
+      let r := intToAlphabetic a n
+      let v := match r with
+        | .val s => toString (alphaValue a (s.toList.filter (· ≠ '-')))
+        | _ => "-"
+      s!"model={showOut encodeStr r} spec={v}"
+  | "args" =>
+    match parseTk (toks.length + 1) toks 0 with
+    | some (tk, [], _) =>
+      let spec := match argsSpec tk with | some l => "v:" ++ showIds l | none => "x:IndexError"
+      s!"model={showOut showIds (getArgumentTokens tk)} spec={spec} ok={if tk.spineOK then 1 else 0}"
+    | _ => "bad-tree"
+  | "desc" =>
+    match parseForest (2 * toks.length + 2) ((nat? (field fs "n")).getD 0) toks 0 with
+    | some (fo, [], _) =>
+      s!"model={showOut showIds (iterDescendants fo)} spec=v:{showIds fo.pre} steps={fo.size}"
+    | _ => "bad-forest"
+  | _ => "bad-kind"
+
 def answer (line : String) : String :=
   if line.startsWith "X " then answerX (fields (line.drop 2).toString) else
   if line == "T" then answerT else
+  if line.startsWith "W " then answerW (fields (line.drop 2).toString) else
   if line.startsWith "H " then answerH (line.drop 2).toString
   else if line.startsWith "L " then answerL (fields (line.drop 2).toString)
   else if line.startsWith "E " then answerE (fields (line.drop 2).toString)
